@@ -145,6 +145,13 @@ pub fn foreign_ca_with_name(name: Vec<u8>, spki: &[u8]) -> Vec<u8> {
     cert_with(name, &bc, Some(2), uint(&[5]), spki)
 }
 
+/// A CA certificate (basicConstraints cA, keyCertSign) carrying the given further extensions, stub-signed.
+pub fn foreign_ca_with_exts(extra: &[RefExt], spki: &[u8]) -> Vec<u8> {
+    let mut exts = vec![RefExt::new(OID_BC, true, seq(&[boolean(true)])), RefExt::new(OID_KU, true, bitstring(&[0x06], 1))];
+    exts.extend(extra.iter().cloned());
+    cert_with(DnSpec::cn("corpus ca").der(), &exts, Some(2), uint(&[5]), spki)
+}
+
 fn cert_with(subject: Vec<u8>, exts: &[RefExt], version: Option<u64>, serial: Vec<u8>, spki: &[u8]) -> Vec<u8> {
     let alg = Alg::Ed25519;
     let mut items = Vec::new();
